@@ -725,6 +725,17 @@ impl<C: CellType> Expr<C> {
     }
 }
 
+#[cfg(hpbf_verif)]
+impl<C: CellType> Expr<C> {
+    /// Verification hook: the exact list of parts (coefficient, variables) of this expression.
+    pub fn verif_parts(&self) -> Vec<(C, Vec<isize>)> {
+        self.parts
+            .iter()
+            .map(|p| (p.coef, p.vars.iter().copied().collect()))
+            .collect()
+    }
+}
+
 impl<C: CellType> Instr<C> {
     /// Create an instruction equivalent to loading the value `val` into the
     /// variable `var`.
